@@ -245,19 +245,22 @@ theorem copySlot_forest {s : Seg} (hF : Forest s) {i rf : Nat} (hi : Real s i) (
   | some p =>
     simp only []
     obtain ⟨hpr, hpf, hps⟩ := hgood p hrp
+    -- the slot stays a root: same tree fields as before
+    have ts0 : TreeSame s (((s.upd i fun si => si.copyFrom (s.get rf)).upd i fun sl => sl.setParent none).unmark i) := by
+      unfold Seg.unmark
+      refine ⟨by simp, fun j => ?_⟩
+      by_cases hji : j = i
+      · rw [hji, get_upd_self _ _ _ (by simpa using his), get_upd_self _ _ _ (by simpa using his), g1i]
+        exact ⟨by show none = _; rw [hp], by show none = _; rw [hc], by show none = _; rw [hsib], by show false = _; rw [hcop]⟩
+      · rw [get_upd_ne _ _ _ _ hji, get_upd_ne _ _ _ _ hji, g1 j hji]; exact ⟨rfl, rfl, rfl, rfl⟩
+    split
+    · exact ⟨forest_congr ts0 hF, ts0.free, fun j => (ts0.fld j).2.2.2, fun j _ => (ts0.fld j).1⟩
     by_cases hpi : p = i
     · have hch : child (s.upd i fun si => si.copyFrom (s.get rf)) p i = (false, s.upd i fun si => si.copyFrom (s.get rf)) := by
         unfold child; rw [if_pos hpi]
       rw [hch]
       simp only [Bool.false_eq_true, if_false]
-      have ts : TreeSame s (((s.upd i fun si => si.copyFrom (s.get rf)).upd i fun sl => sl.setParent none).unmark i) := by
-        unfold Seg.unmark
-        refine ⟨by simp, fun j => ?_⟩
-        by_cases hji : j = i
-        · rw [hji, get_upd_self _ _ _ (by simpa using his), get_upd_self _ _ _ (by simpa using his), g1i]
-          exact ⟨by show none = _; rw [hp], by show none = _; rw [hc], by show none = _; rw [hsib], by show false = _; rw [hcop]⟩
-        · rw [get_upd_ne _ _ _ _ hji, get_upd_ne _ _ _ _ hji, g1 j hji]; exact ⟨rfl, rfl, rfl, rfl⟩
-      exact ⟨forest_congr ts hF, ts.free, fun j => (ts.fld j).2.2.2, fun j _ => (ts.fld j).1⟩
+      exact ⟨forest_congr ts0 hF, ts0.free, fun j => (ts0.fld j).2.2.2, fun j _ => (ts0.fld j).1⟩
     · obtain ⟨l, hk⟩ := hF.kids p hpr
       have hil : i ∉ l := fun hh => by rw [(hk.mem i hh).1] at hp; cases hp
       -- the chain of `p` after the `memcpy`
